@@ -104,7 +104,7 @@ func SearchUnique[S ~[]E, E, T any](x S, target T, cmp func(E, T) int) (int, boo
 		if cmpValue < 0 {
 			low = i + 1
 		} else {
-			high = i - 1
+			high = i // [low, high) is half open: i itself is excluded
 		}
 	}
 
